@@ -446,6 +446,25 @@ def misc_cases():
                        lambda self, eng, q: [(SVal(a), SVal(b))], lambda self: [],
                        lambda self, q, ret: [('applies_mapper_to_unpacked_item', val_of(self.eng, q, ret) == ufn('mapper', 2)(a, b))],
                        on_exc=lambda self, q: BoolVal(isinstance(q.exc, ExcV) and q.exc.origin == 'mapper'))]
+    # progress: scan(_progress, seed=None) ; map(lambda i: i[0]) -- the accumulator passes the item through, from the very first item
+    thr = Int('threshold'); cnt = Int('pg_counter'); cd = Int('pg_countdown'); prev = Const('pg_prev', Val)
+    pg_args = [SStr(z3.String('pg_name')), SInt(thr)]
+    def pg_first(self, eng, q): return [None, SVal(X_)]
+    def pg_later(self, eng, q): return [(SVal(Const('pg_item0', Val)), SInt(cnt), SInt(cd), SVal(prev)), SVal(X_)]
+    def pg_ens(first):
+        def ens(self, q, ret):
+            ok = isinstance(ret, tuple) and len(ret) == 4
+            c0 = IntVal(0) if first else cnt
+            return [('state_has_four_fields', BoolVal(ok)),
+                    ('item_passed_through', (val_of(self.eng, q, ret[0]) == X_) if ok else BoolVal(False)),
+                    ('counts_the_item', (self.eng.to_int(q, ret[1]) == c0 + 1) if ok else BoolVal(False))]
+        return ens
+    for tag, argf, first in (('first_item', pg_first, True), ('later_item', pg_later, False)):
+        out.append(HelperCase(f'progress/_progress[{tag}]', 'rxsci.operators.progress', 'progress', pg_args, {'measure_throughput': False},
+                              lambda ps: ps[0][1]['accumulator'], argf, lambda self: [thr >= 1], pg_ens(first)))
+    out.append(HelperCase('progress/map_mapper', 'rxsci.operators.progress', 'progress', pg_args, {'measure_throughput': False}, lambda ps: ps[1][1]['mapper'],
+                          lambda self, eng, q: [(SVal(X_), SInt(cnt), SInt(cd), SVal(prev))], lambda self: [],
+                          lambda self, q, ret: [('emits_the_item', val_of(self.eng, q, ret) == X_)]))
     return out
 
 
@@ -497,6 +516,9 @@ def _e2e(group):
             if got != [[1, 2, 3]]: found = {'pipeline': 'to_list', 'input': [1, 2, 3], 'expected': [[1, 2, 3]], 'got': got}
             got = run_mux([(1, 2), (3, 4)], rs.ops.starmap(lambda a, b: a + b))
             if got != [3, 7] and not found: found = {'pipeline': 'starmap(add)', 'input': [(1, 2), (3, 4)], 'expected': [3, 7], 'got': got}
+            for mode, run_ in (('mux', run_mux), ('plain', run_plain)):
+                got = run_([5, 6, 7], rs.ops.progress('helpers', 2, measure_throughput=False))
+                if got != [5, 6, 7] and not found: found = {'pipeline': f'progress(threshold=2) [{mode}]', 'input': [5, 6, 7], 'expected': [5, 6, 7], 'got': got}
         _E2E_CACHE[group] = found
         return found
     return run
